@@ -435,6 +435,7 @@ def thorough(ctx):
 def mutants():
     from ..selftest import TextMutant as T
     return [
+        T("attr-exception-last-char", "_tokenizer.py", "                    (charStack[entityLength] in asciiLetters or\n                     charStack[entityLength] in digits or\n                     charStack[entityLength] == \"=\")):", "                    (charStack[-1] in asciiLetters or\n                     charStack[-1] in digits or\n                     charStack[-1] == \"=\")):", "R14.4"),
         T("int-unbounded-digits", "_tokenizer.py", "        number = \"\".join(charStack).lstrip(\"0\")\n        if len(number) > 7:\n            charAsInt = 0x110000\n        else:\n            charAsInt = int(number or \"0\", radix)\n",
           "        charAsInt = int(\"\".join(charStack), radix)\n", "R14.3"),
         T("eight-digits-out-of-range", "_tokenizer.py", "        if len(number) > 7:", "        if len(number) > 5:", "R14.3"),
